@@ -301,6 +301,18 @@ Section Sched.
     | _, _ => false
     end.
 
+  (** order / once / release / overlap + every due run started at quiescence *)
+  Fixpoint spec_core (s : spec) (evs : list ev) (os : list obs) : bool :=
+    match evs, os with
+    | [], [] => true
+    | e :: er, o :: or =>
+        match spec_execs (spec_event s e) (b_ex o) with
+        | Some s' => spec_live s' && spec_core s' er or
+        | None => false
+        end
+    | _, _ => false
+    end.
+
   Fixpoint spec_full (s : spec) (evs : list ev) (os : list obs) : bool :=
     match evs, os with
     | [], [] => true
@@ -350,4 +362,8 @@ Definition check (c : case) : verdict :=
   let ids := ev_ids (c_evs c) in
   let same := list_eqb (obs_same ids) (c_obs c) m in
   let ok := spec_full every_next wk pk spec0 (c_evs c) (c_obs c) in
-  judge same ok.
+  (* a failure of the core part (order, once, release, overlap, liveness) is never
+     attributed to the known stale-timer finding: only When()/no-spin failures that the
+     model reproduces get verdict 3 *)
+  let core := spec_core every_next wk pk spec0 (c_evs c) (c_obs c) in
+  judge (same && core) ok.
